@@ -459,11 +459,11 @@ def _name_is_validated(prog, tree):
         f = prog.fn("e57_writer::E57Writer::<T>::add_pointcloud")
         v = [bi for bi, t in f.calls(lambda c, t: c == "extension::Extension::validate_prototype")]
         n = [bi for bi, t in f.calls(lambda c, t: c.endswith("PointCloudWriter::<'a, T>::new"))]
-        ok1 = bool(v) and bool(n) and f.dominates(v[0], n[0]) and branch_of_call(f, v[0]) is not None
+        ok1 = bool(v) and bool(n) and gated_by_ok(f, v[0], n)
         g = prog.fn("e57_writer::E57Writer::<T>::register_extension")
         v2 = [bi for bi, t in g.calls(lambda c, t: c == "extension::Extension::validate_name")]
         p2 = [bi for bi, t in g.calls(lambda c, t: c.endswith("Vec::<T, A>::push"))]
-        ok2 = bool(v2) and bool(p2) and g.dominates(v2[0], p2[0]) and branch_of_call(g, v2[0]) is not None
+        ok2 = bool(v2) and bool(p2) and gated_by_ok(g, v2[0], p2)
         h = prog.fn("extension::Extension::validate_prototype")
         names = sorted(tree_str(strip(Resolver(h).operand(t["args"][0]))) for bi, t in h.calls(lambda c, t: c == "extension::Extension::validate_name"))
         ok3 = len(names) == 2 and all(branch_of_call(h, bi) is not None for bi, t in h.calls(lambda c, t: c == "extension::Extension::validate_name"))
@@ -994,6 +994,10 @@ def raw_xml_identity(ctx, prog, rule):
             args = d[2]
             src = [x for a in args for x in leaves(a) if x[0] == "call" and x[1] == "root::serialize_root"]
             okw = bool(src)
+        # serialize_root(..).and_then(transformer): the transformer parameter applied to the serialised XML
+        if d[0] == "call" and d[1].rsplit("::", 1)[-1] == "and_then" and len(d[2]) == 2:
+            a0, a1 = strip(d[2][0]), strip(d[2][1])
+            okw = a0[0] == "call" and a0[1] == "root::serialize_root" and a1[0] == "param"
     ctx.ob(rule, "xml-written/finalize_customized_xml", okw, "bytes written as XML section: %s (must be exactly transformer(serialize_root(..)).as_bytes())" % desc)
 
 
